@@ -396,11 +396,24 @@ func (f *Frame) enterLoop(li *LoopInfo, preds []*ssa.BasicBlock, conds []string)
 	hdr := entryHeap.clone()
 	ws := e.loopWriteSet(f, li)
 	allocBefore := ""
+	var allowed map[string][]*Loc
+	framed := false
+	if f.top {
+		allowed, framed = f.allowedLocs()
+	}
+	li.framed = map[string]bool{}
 	for _, v := range ws {
 		if v == "$alloc" {
 			allocBefore = e.hget(hdr, v)
 		}
+		before := e.hget(hdr, v)
 		e.hhavoc(hdr, v)
+		if framed && !frameExempt(v) {
+			// the loop may change v only where the function's modifies clause allows
+			// (re-checked for the loop body at every back edge: frame.loop)
+			e.assert(f.frameCond(v, e.hget(hdr, v), before, allowed[v]))
+			li.framed[v] = true
+		}
 	}
 	if allocBefore != "" {
 		e.assert(fmt.Sprintf("(>= %s %s)", e.hget(hdr, "$alloc"), allocBefore))
@@ -469,6 +482,21 @@ func (f *Frame) backEdge(li *LoopInfo, from *ssa.BasicBlock, ec string) {
 				pos = ins.Pos()
 				break
 			}
+		}
+	}
+	if len(li.framed) > 0 {
+		allowed, _ := f.allowedLocs()
+		var vs []string
+		for v := range li.framed {
+			vs = append(vs, v)
+		}
+		sort.Strings(vs)
+		for _, v := range vs {
+			now, before := e.hget(f.heap, v), e.hget(li.hdrHeap, v)
+			if now == before {
+				continue
+			}
+			e.addObl("frame.loop", tag+":"+v, ec, f.frameCond(v, now, before, allowed[v]), pos, "loop body writes only what the function's modifies clause allows", f.props())
 		}
 	}
 	for i, inv := range li.spec.Invariants {
@@ -676,6 +704,9 @@ func (f *Frame) specEnv(h *Heap, li *LoopInfo, from *ssa.BasicBlock) *SpecEnv {
 				return specVal{v: f.args[i], t: p.Type()}, true
 			}
 		}
+		if name == "self" && f.selfTerm != "" {
+			return specVal{v: Val{T: f.selfTerm}, t: f.fn.Signature}, true
+		}
 		return specVal{}, false
 	}
 	env.old = old
@@ -719,6 +750,9 @@ func (f *Frame) lookupName(name string, li *LoopInfo, from *ssa.BasicBlock) (spe
 		if p.Name() == name {
 			return specVal{v: f.args[i], t: p.Type()}, true
 		}
+	}
+	if name == "self" && f.selfTerm != "" {
+		return specVal{v: Val{T: f.selfTerm}, t: fn.Signature}, true
 	}
 	for _, fv := range fn.FreeVars {
 		if fv.Name() == name {
